@@ -1383,6 +1383,71 @@ def m_stringio(I, args, kwargs, node):
 # re
 
 
+_F2_TEMPLATES = {
+    # make: 2n+1 run characters before a special character
+    'make': "def repl(m):\n    return m.group(1) * 2 + '\\\\' + m.group(2)",
+    # windows: 2n+1 before a quote, 2n at the end of the string
+    'windows': "def repl(m):\n    quote = '\\\\' + m.group(2) if len(m.group(2)) else ''\n    return m.group(1) * 2 + quote",
+}
+
+
+def f2_variant(clo):
+    """Which known template the replacement closure's AST is (parameter name normalised)."""
+    import copy
+    node = clo.node
+    if not isinstance(node, ast.FunctionDef) or len(node.args.args) != 1:
+        return None
+    pname = node.args.args[0].arg
+
+    class Ren(ast.NodeTransformer):
+        def visit_Name(self, n):
+            if n.id == pname:
+                return ast.copy_location(ast.Name(id='m', ctx=n.ctx), n)
+            return n
+    body = [Ren().visit(copy.deepcopy(st)) for st in node.body]
+    got = ast.dump(ast.Module(body=body, type_ignores=[]))
+    for name, src in _F2_TEMPLATES.items():
+        want = ast.dump(ast.Module(body=ast.parse(src).body[0].body, type_ignores=[]))
+        if got == want:
+            return name
+    return None
+
+
+_F2_FOLDS = {}
+
+
+def f2_fold(fam, variant):
+    """re.sub for the family (a*)(ALT) with the make / windows replacement, as a transducer.
+
+    state (k, pos0): k = length of the current run of the run character (already copied to the output),
+    pos0 = 1 only before the first character.  A special character after a run of k gets k + 1 more run
+    characters in front of it (2k+1 in total); at the end of the string the windows variant (ALT has `$`)
+    doubles a trailing run (flush).  Assumes no line break in the subject when ALT has `$` (Python's `$`
+    also matches before a trailing newline) -- the callers' contracts exclude line breaks."""
+    key = (fam.run_char, fam.cls, tuple(fam.start_lits), fam.at_end, variant)
+    if key not in _F2_FOLDS:
+        rc, cls, starts, at_end = fam.run_char, fam.cls, list(fam.start_lits), fam.at_end
+
+        def step(st, c):
+            k, pos0 = st
+            is_run = T.eq(c, rc)
+            special = cls.contains(c)
+            for sl in starts:
+                special = T.OR(special, T.AND(T.eq(pos0, 1), T.eq(c, sl)))
+            k2 = T.ite(is_run, k + 1, 0)
+            out = T.ite(is_run, T.unit(c),
+                  T.ite(special, T.cat(T.rep(rc, k), T.unit(rc), T.unit(c)), T.unit(c)))
+            return (k2, 0), out
+        f = T.Fold('f2_%s_%d' % (variant, len(_F2_FOLDS)), 2, step, 're.sub family F2 (%s)' % variant)
+        f.fam, f.variant = fam, variant
+        if at_end:
+            f.flush = lambda st: T.rep(rc, st[0])
+        else:
+            f.flush = lambda st: T.empty()
+        _F2_FOLDS[key] = f
+    return _F2_FOLDS[key]
+
+
 class PatternMethod(Model):
     def __init__(self, pat, name):
         self.pat, self.name = pat, name
@@ -1414,11 +1479,14 @@ def re_call(I, name, pattern, flags, args, kwargs, node):
                 raise _oos('unsupported replacement template %r' % repl, node)
             f = sub_fold(fam.cls, tmpl)
             return mk_str(f.out((0,), sym_str(s)))
-        ext = getattr(I, 'models_ext', None)
-        if ext is not None:
-            r = ext.re_sub(I, fam, pattern, repl, s, node)
-            if r is not NotImplemented:
-                return r
+        if isinstance(fam, RX.F2) and isinstance(repl, Closure):
+            variant = f2_variant(repl)
+            if variant is None:
+                raise _oos('re.sub(%r): replacement function does not match a known template' % pattern, node)
+            f = f2_fold(fam, variant)
+            st, out = f.run((0, 1), sym_str(s))
+            tail = f.flush(st)
+            return mk_str(T.cat(out, tail))
         raise _oos('re.sub(%r) with this replacement' % pattern, node)
     raise _oos('re.%s' % name, node)
 
